@@ -285,22 +285,32 @@ Proof.
 Qed.
 
 (* front-end delivery *)
-Lemma deliver_correct h live l : exists d, obs_at h (OFront live l) = BDeliver d /\ deliver_spec live l d.
+Lemma deliver_correct h live closing l :
+  exists d, obs_at h (OFront live closing l) = BDeliver d /\ deliver_spec live closing l d.
 Proof. eexists. split; reflexivity. Qed.
 
-Lemma deliver_count live l i :
-  zcount i (front_push live l) = if zmem i live then zcount i l else 0%nat.
+Lemma deliver_count live closing l i :
+  zcount i (front_push live closing l) = if deliverable live closing i then zcount i l else 0%nat.
 Proof.
-  unfold front_push. induction l as [|x r IH]; simpl; [destruct (zmem i live); reflexivity|].
-  destruct (zmem x live) eqn:Ex; simpl; rewrite IH; destruct (Z.eqb_spec i x) as [->|N].
+  unfold front_push. induction l as [|x r IH]; simpl; [destruct (deliverable live closing i); reflexivity|].
+  destruct (deliverable live closing x) eqn:Ex; simpl; rewrite IH; destruct (Z.eqb_spec i x) as [->|N].
   - rewrite Ex. reflexivity.
-  - destruct (zmem i live); reflexivity.
+  - destruct (deliverable live closing i); reflexivity.
   - rewrite Ex. reflexivity.
-  - destruct (zmem i live); reflexivity.
+  - destruct (deliverable live closing i); reflexivity.
 Qed.
 
-Lemma deliver_order live l : subseq (front_push live l) l.
+Lemma deliver_order live closing l : subseq (front_push live closing l) l.
 Proof.
   unfold front_push. induction l as [|x r IH]; simpl; [constructor|].
-  destruct (zmem x live); [apply subseq_take | constructor]; exact IH.
+  destruct (deliverable live closing x); [apply subseq_take | constructor]; exact IH.
+Qed.
+
+(* the connections that are closing do not affect what the others get *)
+Lemma deliver_frame live closing l :
+  front_push live closing l = filter (fun i => negb (zmem i closing)) (front_push live [] l).
+Proof.
+  unfold front_push, deliverable. induction l as [|x r IH]; simpl; [reflexivity|].
+  destruct (zmem x live); simpl; [|exact IH].
+  destruct (zmem x closing); simpl; rewrite IH; reflexivity.
 Qed.
